@@ -469,42 +469,120 @@ def gen_decorated(repo):
         raise Skip('get_decorated_functions: outer loop is not `for name in dir(self)`')
     nv = loop.target.id
     lb = body_of(loop)
-    if len(lb) != 3:
-        raise Skip('get_decorated_functions: loop body is not (skip-test, getattr, inner loop)')
-    s1, s2, s3 = lb
-    t = s1.test if isinstance(s1, ast.If) else None
-    if not (isinstance(t, ast.Call) and attr_chain(t.func) == [nv, 'startswith'] and len(t.args) == 1
-            and isinstance(t.args[0], ast.Constant) and isinstance(t.args[0].value, str)
-            and len(s1.body) == 1 and isinstance(s1.body[0], ast.Continue) and not s1.orelse):
-        raise Skip('get_decorated_functions: loop does not start with `if name.startswith(<str>): continue`')
-    prefix = t.args[0].value
-    if prefix.strip('_') != '':
-        raise Skip('get_decorated_functions: skip prefix contains other characters than underscores')
-    f['skipPrefixUnderscores'] = len(prefix)
-    if not (isinstance(s2, ast.Assign) and is_name(s2.targets[0]) and isinstance(s2.value, ast.Call)
-            and is_name(s2.value.func, 'getattr') and len(s2.value.args) == 2 and is_name(s2.value.args[0], 'self')
-            and is_name(s2.value.args[1], nv)):
-        raise Skip('get_decorated_functions: attribute is not `getattr(self, name)`')
-    av = s2.targets[0].id
+    # both shapes of the scan are read:
+    #   A  [if name.startswith('__'): continue]; attribute = getattr(self, name); for t in types: if hasattr(attribute, t): r[t][attribute] = getattr(attribute, t)
+    #   B  [skip]; raw = inspect.getattr_static(self, name, None); function = raw.__func__ if isinstance(raw, (staticmethod, classmethod)) else raw;
+    #      if not inspect.isfunction(function): continue; marks = vars(function); attribute = getattr(self, name);
+    #      [if isinstance(raw, staticmethod): ok = attribute is function  else: ok = inspect.ismethod(attribute) and attribute.__func__ is function;
+    #       if not ok: continue]; for t in types: if t in marks: r[t][attribute] = marks[t]
+    f['skipPrefixUnderscores'] = None
+    if lb and isinstance(lb[0], ast.If) and isinstance(lb[0].test, ast.Call) and attr_chain(lb[0].test.func) == [nv, 'startswith']:
+        s1 = lb[0]; t = s1.test
+        if not (len(t.args) == 1 and isinstance(t.args[0], ast.Constant) and isinstance(t.args[0].value, str)
+                and len(s1.body) == 1 and isinstance(s1.body[0], ast.Continue) and not s1.orelse):
+            raise Skip('get_decorated_functions: skip test is not `if name.startswith(<str>): continue`')
+        prefix = t.args[0].value
+        if prefix == '' or prefix.strip('_') != '':
+            raise Skip('get_decorated_functions: skip prefix is not a run of underscores')
+        f['skipPrefixUnderscores'] = len(prefix)
+        lb = lb[1:]
+
+    def call_of(n, chain, nargs=None):
+        return isinstance(n, ast.Call) and not n.keywords and (attr_chain(n.func) == chain if len(chain) > 1 else is_name(n.func, chain[0])) \
+            and (nargs is None or len(n.args) == nargs)
+
+    def is_getattr_self(st):
+        return isinstance(st, ast.Assign) and len(st.targets) == 1 and is_name(st.targets[0]) and call_of(st.value, ['getattr'], 2) \
+            and is_name(st.value.args[0], 'self') and is_name(st.value.args[1], nv)
+
+    def continue_unless(st, var):
+        return isinstance(st, ast.If) and not st.orelse and len(st.body) == 1 and isinstance(st.body[0], ast.Continue) \
+            and isinstance(st.test, ast.UnaryOp) and isinstance(st.test.op, ast.Not) and var(st.test.operand)
+
+    f['scanLooksAtRawAttribute'] = False
+    f['scanUnwraps'] = []
+    f['scanRequiresMethodOfInstance'] = False
+    marksv = fnv = rawv = None
+    if len(lb) == 2 and is_getattr_self(lb[0]):
+        av = lb[0].targets[0].id
+        inner = lb[1]
+    else:
+        if len(lb) not in (6, 8):
+            raise Skip('get_decorated_functions: loop body is neither (getattr, inner loop) nor (raw, function, isfunction test, marks, getattr, '
+                       '[method test, continue,] inner loop)')
+        r0, r1, r2, r3, r4 = lb[:5]
+        if not (isinstance(r0, ast.Assign) and is_name(r0.targets[0]) and call_of(r0.value, ['inspect', 'getattr_static'], 3)
+                and is_name(r0.value.args[0], 'self') and is_name(r0.value.args[1], nv)
+                and isinstance(r0.value.args[2], ast.Constant) and r0.value.args[2].value is None):
+            raise Skip('get_decorated_functions: raw attribute is not `inspect.getattr_static(self, name, None)`')
+        rawv = r0.targets[0].id
+        if not (isinstance(r1, ast.Assign) and is_name(r1.targets[0])):
+            raise Skip('get_decorated_functions: second statement does not bind the function')
+        fnv = r1.targets[0].id
+        v = r1.value
+        if is_name(v, rawv):
+            pass
+        elif isinstance(v, ast.IfExp) and attr_chain(v.body) == [rawv, '__func__'] and is_name(v.orelse, rawv) \
+                and call_of(v.test, ['isinstance'], 2) and is_name(v.test.args[0], rawv):
+            kinds = v.test.args[1]
+            kinds = kinds.elts if isinstance(kinds, ast.Tuple) else [kinds]
+            if not all(is_name(k) and k.id in ('staticmethod', 'classmethod') for k in kinds):
+                raise Skip('get_decorated_functions: unwraps something else than staticmethod / classmethod')
+            f['scanUnwraps'] = [k.id for k in kinds]
+        else:
+            raise Skip('get_decorated_functions: function is not `raw.__func__ if isinstance(raw, (…)) else raw`')
+        if not continue_unless(r2, lambda e: call_of(e, ['inspect', 'isfunction'], 1) and is_name(e.args[0], fnv)):
+            raise Skip('get_decorated_functions: third statement is not `if not inspect.isfunction(function): continue`')
+        f['scanLooksAtRawAttribute'] = True
+        if not (isinstance(r3, ast.Assign) and is_name(r3.targets[0]) and call_of(r3.value, ['vars'], 1) and is_name(r3.value.args[0], fnv)):
+            raise Skip('get_decorated_functions: marks are not `vars(function)`')
+        marksv = r3.targets[0].id
+        if not is_getattr_self(r4):
+            raise Skip('get_decorated_functions: attribute is not `getattr(self, name)`')
+        av = r4.targets[0].id
+        if len(lb) == 8:
+            m1, m2 = lb[5], lb[6]
+            okv = None
+            if isinstance(m1, ast.If) and call_of(m1.test, ['isinstance'], 2) and is_name(m1.test.args[0], rawv) \
+                    and is_name(m1.test.args[1], 'staticmethod') and len(m1.body) == 1 and len(m1.orelse) == 1 \
+                    and all(isinstance(x, ast.Assign) and is_name(x.targets[0]) for x in (m1.body[0], m1.orelse[0])) \
+                    and m1.body[0].targets[0].id == m1.orelse[0].targets[0].id:
+                okv = m1.body[0].targets[0].id
+                st_ok = ast.unparse(m1.body[0].value) == f'{av} is {fnv}'
+                me_ok = ast.unparse(m1.orelse[0].value) == f'inspect.ismethod({av}) and {av}.__func__ is {fnv}'
+                if not (st_ok and me_ok):
+                    raise Skip('get_decorated_functions: method test is not (attribute is function | inspect.ismethod(attribute) and '
+                               'attribute.__func__ is function)')
+            if okv is None or not continue_unless(m2, lambda e: is_name(e, okv)):
+                raise Skip('get_decorated_functions: method test is not (if isinstance(raw, staticmethod): ok = … else: ok = …; if not ok: continue)')
+            f['scanRequiresMethodOfInstance'] = True
+        inner = lb[-1]
+    s3 = inner
     if not (isinstance(s3, ast.For) and is_name(s3.iter, dts) and is_name(s3.target) and not s3.orelse
             and len(body_of(s3)) == 1 and isinstance(body_of(s3)[0], ast.If)):
         raise Skip('get_decorated_functions: inner loop is not `for t in decorator_types: if ...`')
     tv_ = s3.target.id
     cond = body_of(s3)[0]
     c = cond.test
-    if not (isinstance(c, ast.Call) and is_name(c.func, 'hasattr') and len(c.args) == 2 and is_name(c.args[0], av)
-            and is_name(c.args[1], tv_) and not cond.orelse and len(cond.body) == 1 and isinstance(cond.body[0], ast.Assign)):
-        raise Skip('get_decorated_functions: test is not `hasattr(attribute, decorator_type)`')
+    if not (not cond.orelse and len(cond.body) == 1 and isinstance(cond.body[0], ast.Assign)):
+        raise Skip('get_decorated_functions: inner test does not guard a single store')
     st = cond.body[0]
     tg = st.targets[0]
-    ok = isinstance(tg, ast.Subscript) and (is_name(tg.slice, av) or is_name(tg.slice, nv)) and isinstance(tg.value, ast.Subscript) \
-        and is_name(tg.value.value, resv) and is_name(tg.value.slice, tv_) \
-        and isinstance(st.value, ast.Call) and is_name(st.value.func, 'getattr') and len(st.value.args) == 2 \
-        and is_name(st.value.args[0], av) and is_name(st.value.args[1], tv_)
-    if not ok:
-        raise Skip('get_decorated_functions: store is not `result[t][attribute | attribute_name] = getattr(attribute, t)`')
+    key_ok = isinstance(tg, ast.Subscript) and (is_name(tg.slice, av) or is_name(tg.slice, nv)) and isinstance(tg.value, ast.Subscript) \
+        and is_name(tg.value.value, resv) and is_name(tg.value.slice, tv_)
+    if not key_ok:
+        raise Skip('get_decorated_functions: store target is not `result[t][attribute | attribute_name]`')
+    if call_of(c, ['hasattr'], 2) and is_name(c.args[0], av) and is_name(c.args[1], tv_) \
+            and call_of(st.value, ['getattr'], 2) and is_name(st.value.args[0], av) and is_name(st.value.args[1], tv_):
+        f['scanReadsMarksFromFunctionDict'] = False        # hasattr(attribute, t) / getattr(attribute, t): whatever the object answers to
+    elif marksv is not None and isinstance(c, ast.Compare) and len(c.ops) == 1 and isinstance(c.ops[0], ast.In) and is_name(c.left, tv_) \
+            and is_name(c.comparators[0], marksv) and isinstance(st.value, ast.Subscript) and is_name(st.value.value, marksv) \
+            and is_name(st.value.slice, tv_):
+        f['scanReadsMarksFromFunctionDict'] = True         # t in vars(function) / vars(function)[t]: what was set on the function
+    else:
+        raise Skip('get_decorated_functions: test / value are neither hasattr(attribute, t) / getattr(attribute, t) nor t in marks / marks[t]')
     f['scanKeyIsAttribute'] = is_name(tg.slice, av)       # the key of the inner dict: the attribute itself (else: its name)
-    f['scanValueIsGetattrOfAttribute'] = True             # (the only value expression inside the subset)
+    f['scanValueIsGetattrOfAttribute'] = True             # the value is read where the test looked (the only value expressions inside the subset)
     # class header and library members
     for node in tree.body:
         if isinstance(node, ast.ClassDef) and node.name == 'WithDecoratedMethods':
@@ -594,8 +672,19 @@ def setattrKeyRole : Role := {ROLE[d['setattrKeyRole']]}
 def setattrValRole : Role := {ROLE[d['setattrValRole']]}
 /-- `return transformation(<args>)` -/
 def transformationArgs : List Role := [{', '.join(ROLE[r] for r in d['transformationArgs'])}]
-/-- `attribute_name.startswith(<prefix>)`: the prefix consists of this many underscores -/
-def skipPrefixUnderscores : Nat := {d['skipPrefixUnderscores']}
+/-- `if attribute_name.startswith(<prefix>): continue`: the prefix consists of this many underscores (`none`: no name is passed over) -/
+def skipPrefixUnderscores : Option Nat := {('some ' + str(d['skipPrefixUnderscores'])) if d['skipPrefixUnderscores'] is not None else 'none'}
+/-- the scan looks at the RAW attribute first (`inspect.getattr_static`) and goes on only with functions: properties are not evaluated,
+    other objects are passed over (`false`: `getattr(self, name)` is evaluated for every name) -/
+def scanLooksAtRawAttribute : Bool := {lean_bool(d['scanLooksAtRawAttribute'])}
+/-- `function = raw.__func__ if isinstance(raw, (<these>)) else raw` -/
+def scanUnwraps : List String := [{', '.join(lean_str(a) for a in d['scanUnwraps'])}]
+/-- only what `getattr(self, name)` turns into a method made from that function is reported: `attribute is function` for a staticmethod,
+    `inspect.ismethod(attribute) and attribute.__func__ is function` otherwise (a function in the instance `__dict__` is neither) -/
+def scanRequiresMethodOfInstance : Bool := {lean_bool(d['scanRequiresMethodOfInstance'])}
+/-- the decorator types are looked up in `vars(function)` — what `create_decorator` has set — (`false`: `hasattr(attribute, t)`: whatever
+    the object answers to, also by its type) -/
+def scanReadsMarksFromFunctionDict : Bool := {lean_bool(d['scanReadsMarksFromFunctionDict'])}
 /-- `decorated_functions[t][<key>] = …`: the key of the inner dict is the attribute itself (`false`: its name) -/
 def scanKeyIsAttribute : Bool := {lean_bool(d['scanKeyIsAttribute'])}
 /-- `… = getattr(attribute, t)`: the value is read from the attribute under the decorator type -/
